@@ -412,6 +412,22 @@ pub fn for_each_case(part: &str, tier: Tier, mut f: impl FnMut(u64, Case) -> boo
                 }
             }
         }
+        "programs" => {
+            // well-formed programs of the relational core (the AP alphabet of C01, incl. joins of sub-pipelines
+            // that join): every accepted program must also get through every entry point
+            use crate::apgen::{GenCfg, Letters, SrcKind};
+            let sources = vec![SrcKind::OpenT, SrcKind::LetClosed, SrcKind::LetSide, SrcKind::Literal, SrcKind::SubClosed, SrcKind::LetSorted];
+            let cfgs = match tier {
+                Tier::Quick => vec![GenCfg { depth: 2, sources, max_joins: 2, letters: Letters::Core }],
+                Tier::Thorough => vec![GenCfg { depth: 2, sources: sources.clone(), max_joins: 2, letters: Letters::Core }, GenCfg { depth: 3, sources, max_joins: 2, letters: Letters::Naming }],
+            };
+            let (progs, _) = crate::relrun::enumerate(&cfgs);
+            for (p, _, _) in &progs {
+                if !emit(Case::Src(crate::model::pr_program(p))) {
+                    return;
+                }
+            }
+        }
         "numbers" => {
             // every numeric position × boundary values (one or two slots per carrier)
             let vals: &[&str] = tier.pick(
@@ -742,31 +758,73 @@ pub fn worker(args: &[String]) -> i32 {
 }
 
 /// an RQ document in which some Compute's expression contains a ColumnRef to the id it defines
+/// the RQ document defines a Compute whose expression (or window) refers, directly or through other
+/// Computes, to its own id: SQL generation follows the references without end
 fn rq_self_reference(js: &str) -> bool {
-    fn refs(v: &J, id: i64) -> bool {
+    fn refs(v: &J, out: &mut Vec<i64>) {
         match v {
-            J::Object(m) => m.iter().any(|(k, x)| (k == "ColumnRef" && x.as_i64() == Some(id)) || refs(x, id)),
-            J::Array(a) => a.iter().any(|x| refs(x, id)),
-            _ => false,
+            J::Object(m) => {
+                for (k, x) in m {
+                    if k == "ColumnRef" {
+                        if let Some(i) = x.as_i64() {
+                            out.push(i);
+                        }
+                    }
+                    refs(x, out);
+                }
+            }
+            J::Array(a) => a.iter().for_each(|x| refs(x, out)),
+            J::Number(_) => {}
+            _ => {}
         }
     }
-    fn walk(v: &J) -> bool {
+    fn computes(v: &J, out: &mut BTreeMap<i64, Vec<i64>>) {
         match v {
             J::Object(m) => {
                 if let Some(c) = m.get("Compute") {
                     if let Some(id) = c["id"].as_i64() {
-                        if refs(&c["expr"], id) {
-                            return true;
+                        let mut r = vec![];
+                        refs(c, &mut r);
+                        // window partition / sort hold bare ids
+                        for key in ["partition"] {
+                            if let Some(a) = c["window"][key].as_array() {
+                                r.extend(a.iter().filter_map(|x| x.as_i64()));
+                            }
                         }
+                        if let Some(a) = c["window"]["sort"].as_array() {
+                            r.extend(a.iter().filter_map(|x| x["column"].as_i64()));
+                        }
+                        out.entry(id).or_default().extend(r);
                     }
                 }
-                m.values().any(walk)
+                m.values().for_each(|x| computes(x, out));
             }
-            J::Array(a) => a.iter().any(walk),
-            _ => false,
+            J::Array(a) => a.iter().for_each(|x| computes(x, out)),
+            _ => {}
         }
     }
-    serde_json::from_str::<J>(js).map(|v| walk(&v)).unwrap_or(false)
+    let Ok(v) = serde_json::from_str::<J>(js) else { return false };
+    let mut g = BTreeMap::new();
+    computes(&v, &mut g);
+    // cycle search
+    fn reach(g: &BTreeMap<i64, Vec<i64>>, from: i64, target: i64, seen: &mut BTreeSet<i64>) -> bool {
+        for n in g.get(&from).into_iter().flatten() {
+            if *n == target {
+                return true;
+            }
+            if seen.insert(*n) && reach(g, *n, target, seen) {
+                return true;
+            }
+        }
+        false
+    }
+    g.keys().any(|k| reach(&g, *k, *k, &mut BTreeSet::new()))
+}
+
+/// the token `import` followed by two or more further tokens (the parser does not return)
+fn import_with_two_operands(s: &str) -> bool {
+    let toks: Vec<&str> = s.split_whitespace().collect();
+    toks.iter().position(|t| *t == "import").map(|i| toks.len() - i - 1 >= 2).unwrap_or(false)
 }
 
 // ------------------------------------------------------------------ parent
@@ -873,7 +931,7 @@ fn sweep(part: &str, tier: Tier) -> SweepOut {
 
 pub fn run(tier: Tier) -> i32 {
     let mut run = Run::new("C12", tier);
-    let parts: &[&str] = &["tokens", "text", "numbers", "edits", "json"];
+    let parts: &[&str] = &["tokens", "text", "numbers", "programs", "edits", "json"];
     for part in parts {
         let s = sweep(part, tier);
         run.count(&format!("{part}:cases"), s.cases);
@@ -889,7 +947,11 @@ pub fn run(tier: Tier) -> i32 {
         for p in &s.panics {
             by_key.entry(p["key"].as_str().unwrap_or("?").to_string()).or_default().push(p);
         }
+        // a finding is a panic site *and* the kind of input that reaches it: a site known to be reachable from
+        // a hand-edited JSON document is a different finding when a source text reaches it
+        let class = if *part == "json" { "json" } else { "source" };
         for (k, mut ps) in by_key {
+            let k = format!("{k} <{class}>");
             run.observe(fnv(&k));
             ps.sort_by_key(|p| p["case"].to_string().len());
             run.count(&format!("{part}:panicking_cases"), ps.len() as u64);
@@ -904,14 +966,14 @@ pub fn run(tier: Tier) -> i32 {
             let case = find_case(part, tier, *idx);
             let ident = match &case {
                 // cause predicates of the recorded aborts
-                Some(Case::Src(s)) if s.trim_start().starts_with("import ") && s.split_whitespace().count() >= 3 => "import-followed-by-two-operands".to_string(),
+                Some(Case::Src(s)) if import_with_two_operands(s) => "import-followed-by-two-operands".to_string(),
                 Some(Case::RqJson(js)) if rq_self_reference(js) => "rq-compute-refers-to-its-own-id".to_string(),
                 Some(Case::Src(s)) if s.len() <= 80 => s.replace('\n', "\\n"),
                 Some(c) => format!("{:016x}", fnv(&c.to_json().to_string())),
                 None => "?".into(),
             };
             run.violate(
-                Some(format!("abort:{part}:{ident}")),
+                Some(format!("abort:{}:{ident}", if *part == "json" { "json" } else { "source" })),
                 format!("worker died ({why}) on case {idx} of part `{part}`: {}", case.as_ref().map(|c| c.to_json().to_string().chars().take(400).collect::<String>()).unwrap_or_default()),
                 json!({"driver": part, "case": case.map(|c| c.to_json()), "abort": why}),
             );
@@ -986,7 +1048,7 @@ pub fn run(tier: Tier) -> i32 {
                     }
                     prev = Some((*n, bytes));
                     for p in v["panics"].as_array().cloned().unwrap_or_default() {
-                        let k = p["key"].as_str().unwrap_or("?").to_string();
+                        let k = format!("{} <source>", p["key"].as_str().unwrap_or("?"));
                         run.violate(Some(k.clone()), format!("family {f} n={n}: {} panics at {}: {}", p["stage"], p["site"], p["msg"]), json!({"driver":"family","family": f, "n": n, "case": {"source": family_source(f, *n)}, "panic_site": p["site"], "panic_msg": p["msg"]}));
                     }
                 }
